@@ -6,7 +6,7 @@
   The cache `c` is ARBITRARY in every lookup theorem (in particular every state reachable by inserts, invalidation,
   reload marks, GC rounds, epoch-not-match handling), PD is an arbitrary list of regions unless stated otherwise.
 -/
-import ClientGoVerif.Proofs.RegionReach
+import ClientGoVerif.Proofs.RegionConv
 namespace CGV.Props.C09
 open CGV CGV.Region
 
@@ -136,6 +136,47 @@ theorem batch_lookup_gap_free_partial (fuel : Nat) (c c' : Cache) (pd : PD) (ran
       · exact hb2 ce.r (List.mem_map.mpr ⟨ce, hce, rfl⟩) k hcc
       · obtain ⟨l, hl, hlc⟩ := hcovU u hu' k hu1 hu2
         exact ⟨l, hb1 l hl, hlc⟩
+
+/-- BatchLocateKeyRanges without the bound on the number of request ranges, under PD's contract `PDWithin`
+    (every region PD returns for a batch scan starts before the end of one of the requested ranges — PD does not
+    answer with regions lying entirely beyond what it was asked for): whenever the call answers, the locations cover
+    every requested range.  Any sorted index, any number of uncached holes, PD rounds and ranges per call; PD may still
+    truncate its answers at the limit and return stale descriptions. -/
+theorem batch_lookup_gap_free_pd_contract_partial (fuel : Nat) (c c' : Cache) (pd : PD) (ranges : List KeyRange)
+    (ls : List Region) (hs : Sorted c.sorted) (hv : ValidRanges ranges) (hpd : PDWithin pd)
+    (h : batchLocateKeyRanges fuel c pd ranges = (c', .ok ls)) :
+    ∀ kr ∈ ranges, Covers ls kr.start kr.end_ := by
+  unfold batchLocateKeyRanges at h
+  have hA := (batchStep1_spec (fuel := fuel) (c := c) (st := ⟨none, [], []⟩) hv
+    (by intro l hl; cases hl)).2
+  have hS := batchStep1_si (fuel := fuel) hs (st := ⟨none, [], []⟩) hv
+    (by intro kr _; exact ⟨by simp [StartsSorted], by intro x hx; cases hx⟩)
+    (by simp [StartsSorted]) (by intro l hl; cases hl) (by simp [ValidRangesP]) (by intro u hu; cases hu)
+  change ∀ kr ∈ ranges, ServedBy (batchStep1 fuel c ranges).cached (batchStep1 fuel c ranges).uncached kr at hA
+  change StartsSorted ((batchStep1 fuel c ranges).cached.map (·.r)) ∧
+    ValidRangesP (batchStep1 fuel c ranges).uncached ∧
+    (batchStep1 fuel c ranges).uncached.length ≤ 0 + ranges.length at hS
+  simp only at h
+  generalize batchStep1 fuel c ranges = st at h hA hS
+  cases hb : batchStep2 fuel c pd st.uncached ⟨none, st.cached.map (·.r), []⟩ with
+  | mk c1 res =>
+    rw [hb] at h
+    cases res with
+    | error x => simp at h
+    | ok m' =>
+      simp only [Prod.mk.injEq, Except.ok.injEq] at h
+      obtain ⟨_, rfl⟩ := h
+      obtain ⟨hinv, _, hcovU⟩ := batchStep2_spec_pd hpd hb (mergerInv_init hS.1) hS.2.1
+      obtain ⟨hb1, hb2⟩ := build_covers hinv
+      intro kr hkr k hk1 hk2
+      rcases hA kr hkr k hk1 hk2 with ⟨ce, hce, hcc⟩ | ⟨u, hu', hu1, hu2⟩
+      · exact hb2 ce.r (List.mem_map.mpr ⟨ce, hce, rfl⟩) k hcc
+      · obtain ⟨l, hl, hlc⟩ := hcovU u hu' k hu1 hu2
+        exact ⟨l, hb1 l hl, hlc⟩
+
+/-- non-vacuity of `PDWithin`: it holds for the one-region layout -/
+example : PDWithin [⟨⟨1, [], none, 0, 0⟩, 1, [1, 2, 3]⟩] :=
+  pdWithin_of_starts_nil (by intro p hp; simp at hp; subst hp; rfl)
 
 def pd3 : PD :=
   [⟨⟨1, [], some [103], 1, 0⟩, 1, [1, 2, 3]⟩, ⟨⟨2, [103], some [116], 2, 0⟩, 1, [1, 2, 3]⟩, ⟨⟨3, [116], none, 1, 0⟩, 1, [1, 2, 3]⟩]
@@ -326,5 +367,70 @@ theorem insert_evicts_exactly (c c' : Cache) (n : Entry) (hwf : n.r.wf)
 example : (⟨⟨2, [103], some [116], 2, 0⟩, true, false, 1, [1]⟩ : Entry).r.wf ∧
     (insertRegionToCache Cache.empty ⟨⟨2, [103], some [116], 2, 0⟩, true, false, 1, [1]⟩).2 = true := by
   refine ⟨by simp [Region.wf]; decide, rfl⟩
+
+/-! ## convergence once the topology is quiet
+
+  `pd` is the fixed layout that PD and the stores agree on (`QuietPD`: total, well-formed, disjoint, distinct ids).
+  The cache is any sorted index that is not ahead of it (`ConvInv` = `Sorted` + `NotAhead`: entries are well-formed
+  descriptions whose versions/epochs do not exceed those of the current regions they touch — which holds for whatever
+  was loaded from earlier PD states as long as versions grow with every split and merge; this is an assumption about
+  the history, not proved here, and exercised by the `conv` op of the differential).  A request `attempt` is: LocateKey,
+  send, and — unless the location is exactly the store's current region — a region error handled by one of the three
+  feedback paths (InvalidateCachedRegion, needReloadOnAccess as set by OnSendFail(scheduleReload), OnRegionEpochNotMatch
+  with the store's current regions overlapping the stale one). -/
+
+/-- converges_when_quiet, single key: whatever the feedback path, at most ONE attempt is rejected; the attempt after it
+    is accepted, and from then on the key is `Settled`: found in the cache as PD's current region -/
+theorem converges_when_quiet (c : Cache) (pd : PD) (k : Bytes) (fb : Feedback) (n : Nat)
+    (hq : QuietPD pd) (hi : ConvInv c pd) :
+    ∃ c' failed, attempts (n + 2) c pd k fb 0 = (c', some failed) ∧ failed ≤ 1 ∧ Settled c' pd k ∧ ConvInv c' pd :=
+  attempts_bound hq hi k fb n
+
+/-- a settled key is served with PD's current region from the cache alone — the answer does not depend on what PD would
+    say (no PD round trip), the cache is not modified, and every further attempt is accepted: the situation is stable -/
+theorem settled_is_served_from_cache (c : Cache) (pd : PD) (k : Bytes) (h : Settled c pd k) :
+    ∃ p, pd.getRegion k = some p ∧ (∀ pd', locateKey c pd' k = (c, .ok p.r)) ∧ ∀ fb, attempt c pd k fb = (c, true) :=
+  settled_served h
+
+/-- being settled survives everything the quiet situation does to the cache for OTHER keys: inserting any current
+    region (what lookups, reloads and epoch-not-match handling of other keys do) keeps the key settled -/
+theorem settled_is_stable (c : Cache) (pd : PD) (k : Bytes) (hq : QuietPD pd) (hi : ConvInv c pd)
+    (h : Settled c pd k) (q : PdRegion) (hqm : q ∈ pd) :
+    Settled (insertRegionToCache c q.toEntry).1 pd k ∧ ConvInv (insertRegionToCache c q.toEntry).1 pd :=
+  ⟨insert_keeps_settled hq hi h hqm rfl rfl rfl, insert_convInv hq hi hqm rfl⟩
+
+/-- converges_when_quiet, several keys (e.g. one key per current region that a range request touches): driving the
+    keys one after the other costs at most ONE rejected attempt per key in total, and at the end ALL of them are settled
+    simultaneously — driving one key never unsettles another -/
+theorem converges_when_quiet_keys (c : Cache) (pd : PD) (keys : List Bytes) (fb : Feedback) (n : Nat)
+    (hq : QuietPD pd) (hi : ConvInv c pd) :
+    (∀ k ∈ keys, Settled (driveKeys n pd fb keys c 0).1 pd k) ∧ (driveKeys n pd fb keys c 0).2 ≤ keys.length ∧
+      ConvInv (driveKeys n pd fb keys c 0).1 pd := by
+  have := driveKeys_spec hq n fb keys hi 0 [] (by intro k hk; cases hk)
+  exact ⟨fun k hk => this.2.1 k (by simpa using hk), by simpa using this.2.2, this.1⟩
+
+/-- non-vacuity: a two-region layout is quiet, the empty cache and a cache holding the stale unsplit region satisfy the
+    invariant, and the stale cache really needs one rejected attempt -/
+example : QuietPD pd2 ∧ ConvInv Cache.empty pd2 ∧
+    (attempts 3 (insertRegionToCache Cache.empty ⟨⟨1, [], none, 0, 0⟩, true, false, 1, [1, 2, 3]⟩).1 pd2 [104]
+      Feedback.invalidate 0).2 = some 1 := by
+  refine ⟨⟨?_, ?_, ?_, ?_⟩, ⟨by simp [Cache.empty, Sorted], ?_⟩, rfl⟩
+  · intro k
+    rcases le_total [103] k with h | h
+    · refine ⟨⟨⟨2, [103], none, 1, 0⟩, 1, [1, 2, 3]⟩, ?_⟩
+      have h1 : Bytes.lt k [103] = false := by
+        cases hl : Bytes.lt k [103] with
+        | false => rfl
+        | true => rw [le_iff_not_lt, hl] at h; cases h
+      simp [PD.getRegion, pd2, List.find?, Region.contains, Region.endKey, h, h1, nil_le]
+    · refine ⟨⟨⟨1, [], some [103], 1, 0⟩, 1, [1, 2, 3]⟩, ?_⟩
+      simp [PD.getRegion, pd2, List.find?, Region.contains, Region.endKey, h, nil_le]
+  · intro p hp; simp [pd2] at hp; rcases hp with rfl | rfl <;> simp [Region.wf] <;> decide
+  · intro p hp q hq; simp [pd2] at hp hq
+    rcases hp with rfl | rfl <;> rcases hq with rfl | rfl <;> simp <;> decide
+  · intro p hp q hq; simp [pd2] at hp hq
+    rcases hp with rfl | rfl <;> rcases hq with rfl | rfl <;> simp
+  · exact ⟨(by intro e he; cases he), (by intro e he; cases he), (by intro e he; cases he), (by intro x hx; cases hx),
+      (by intro e he; cases he)⟩
 
 end CGV.Props.C09
